@@ -26,7 +26,7 @@ REPORT_COUNTERS = ['programs', 'compilations', 'sql_ok', 'diagnostics', 'interna
 
 def plan(tier, seed):
   return {'nshards': 16, 'timeout_s': 5400 if tier == 'thorough' else 1200,
-          'params': {'n_programs': 320 if tier == 'thorough' else 10}}
+          'params': {'n_programs': 70 if tier == 'thorough' else 10}}
 
 
 def features_for(i):
